@@ -94,6 +94,10 @@ static const scen_t scenarios[] = {
    "readers of a key that always exists while a writer overwrites it and a full compaction merges the two versions (the shadowed one is dropped)"},
   {"D2c", "B1", 0, "", "", {"P0.1 P0.1", "P1.1", "B[P2.1,P3.1]", "n23 n23"}, 0,
    "group commit over DISJOINT keys: a leader with two queued followers (one a 2-key batch), a later small write by the first writer, and a snapshot reader of the batch's keys: every merged batch stays visible as a whole and in order"},
+  {"D18", "B1", 4, "P0.1 P1.1 F", "", {"B[P0.1,D1] P1.1", "h01 h01", "C"}, 0,
+   "a snapshot taken while a batch (overwrite + delete) is in flight is HELD and re-read (lookups + iterator) after the write and a full compaction completed: its view never moves"},
+  {"D18f", "B1,reuse=1", 4, "P0.2 P1.2 P0.2", "", {"B[P0.1,D1] P1.2", "h01 h01"}, 0,
+   "as D18 with a nearly full memtable: the in-flight write switches memtables and a background flush runs while the snapshot is held"},
   {"D2b", "B1", 4, "", "", {"B[P0.1,P1.1]", "B[D0,D1]", "t t"}, 0,
    "batch writer + batch deleter + iterator scanner (both keys or none)"},
 };
@@ -136,6 +140,7 @@ typedef struct oprec_s {
 static oprec_t recs[MAXTHR][MAXTOPS];
 static int nrecs[MAXTHR];
 static int final_vids[KV_MAXKEYS];
+static char held_err[400];
 static int final_ok;
 static char exec_err[500];
 static ldb_t *gdb;
@@ -162,6 +167,7 @@ parse_prog(int t, const char *s) {
       if (!kop_parse(&o->w, s, &s)) vh_die("bad write op in scenario");
     } else if (*s == 'g') { o->kind = 'g'; o->k1 = s[1] - '0'; s += 2; }
     else if (*s == 'n') { o->kind = 'n'; o->k1 = s[1] - '0'; o->k2 = s[2] - '0'; s += 3; }
+    else if (*s == 'h') { o->kind = 'h'; o->k1 = s[1] - '0'; o->k2 = s[2] - '0'; s += 3; }
     else if (*s == 'R') { o->kind = 'R'; o->k1 = s[1] - '0'; s += 2; }
     else if (strchr("tCFyxK", *s)) { o->kind = *s; s++; }
     else vh_die("bad op '%c' in scenario", *s);
@@ -278,6 +284,35 @@ thread_body(void *arg) {
         ldb_release(gdb, s);
         break;
       }
+      case 'h': {
+        /* a HELD snapshot: both keys are read through it, the thread then makes an unrelated call (so that any
+         * other thread can run to completion in between), and both keys and a full scan are read through the
+         * SAME snapshot again: the view must not have moved (C06), and it is one point of the order (C08) */
+        const ldb_snapshot_t *s;
+        int st2, again[2], scan[KV_MAXKEYS], stx;
+        ldb_readopt_t ro = *ldb_readopt_default;
+        ldb_iter_t *it;
+        char *pv = NULL;
+        r->inv = sch_event();
+        s = ldb_snapshot(gdb);
+        r->ret = sch_event();
+        do_get(t, o->k1, s, &r->vids[0], &r->status);
+        do_get(t, o->k2, s, &r->vids[1], &st2);
+        if (r->status == LDB_NOTFOUND) r->status = LDB_OK;
+        if (st2 != LDB_OK && st2 != LDB_NOTFOUND) r->status = st2;
+        if (ldb_property(gdb, "leveldb.num-files-at-level0", &pv)) ldb_free(pv);
+        do_get(t, o->k1, s, &again[0], &stx);
+        do_get(t, o->k2, s, &again[1], &stx);
+        ro.snapshot = s;
+        it = ldb_iterator(gdb, &ro);
+        do_scan(t, it, scan, &stx);
+        ldb_iter_destroy(it);
+        if (!held_err[0] && (again[0] != r->vids[0] || again[1] != r->vids[1] || scan[o->k1] != r->vids[0] || scan[o->k2] != r->vids[1]))
+          snprintf(held_err, sizeof(held_err), "thread %d: a held snapshot first showed key#%d=v%d key#%d=v%d, later lookups through the SAME snapshot show v%d / v%d and its iterator v%d / v%d",
+                   t, o->k1, r->vids[0], o->k2, r->vids[1], again[0], again[1], scan[o->k1], scan[o->k2]);
+        ldb_release(gdb, s);
+        break;
+      }
       case 't': {
         ldb_iter_t *it;
         r->inv = sch_event();
@@ -348,6 +383,7 @@ exec_body(void *arg) {
   ldb_iter_t *it;
   (void)arg;
   exec_err[0] = 0;
+  held_err[0] = 0;
   final_ok = 0;
   sch_quiet(1);
   kh_init(&h, &cfg, DB);
@@ -430,7 +466,7 @@ lin_apply(const oprec_t *o, kmodel_t *m) {
       }
       return 1;
     case 'g': return o->vids[0] == m->vid[o->k1];
-    case 'n': return o->vids[0] == m->vid[o->k1] && o->vids[1] == m->vid[o->k2];
+    case 'n': case 'h': return o->vids[0] == m->vid[o->k1] && o->vids[1] == m->vid[o->k2];
     case 't':
     case 'K':
     case 'Z':
@@ -576,6 +612,10 @@ run_one(const int *prefix, int nprefix, xres_t *x) {
     x->ok = 0;
     snprintf(x->sig, sizeof(x->sig), "exec-error");
     snprintf(x->err, sizeof(x->err), "%s", exec_err);
+  } else if (held_err[0] && strcmp(prop, "C09") != 0) {
+    x->ok = 0;
+    snprintf(x->sig, sizeof(x->sig), "held-snapshot-changed");
+    snprintf(x->err, sizeof(x->err), "%s", held_err);
   } else if (strcmp(prop, "C09") != 0) {
     char e[600];
     if (!final_ok) {
